@@ -28,6 +28,7 @@ Checking requests (`<op> <args…> => <implementation output>`, answered `model=
                                            compressor's bytes are taken from the implementation, as for wmodel2c)
   pwset1 <pre> <attrs> <recs> <plainhex|-> => <hex>   RecordSet.WriteTo, Version 1, on the real page buffer ≡
                                            writeV1Paged / writeV1PagedC (render in place, scan, compress, Truncate, wrapper)
+  v1hdr <path> => refused                  records WITH headers on a path that emits message format 1 must be refused (C05-D32)
   pbuf <ops,…> => <digests,…>              sequences of Write / WriteAt / ReadAt / scan / Truncate / ref+ReadAt on the real
                                            pageBuffer (export hook) against Model/PageBuffer with the extracted pageSize
   ptrace <a|r<id>|f<id>|u<id>,…> => ok <n>   the page-event trace recorded by the hooks in protocol/buffer.go during a
@@ -338,6 +339,10 @@ def step (line : String) : String :=
           s!"model={h} holds={if h == impl && thm && inner then 1 else 0}"
         | (none, _, _) => "model=error holds=0"
       | _, _, _, _ => "bad-op"
+    | ["v1hdr", _path] =>
+      -- records with headers handed to a writer that can only emit message format 1: the format has no place for them,
+      -- the only outcome that loses nothing silently is a refusal (finding C05-D32)
+      s!"model=refused holds={if impl == "refused" then 1 else 0}"
     | ["pbuf", opsText] =>
       let model := match runPbuf Gen.RecordConsts.pageSize (opsText.splitOn ",") ⟨0, []⟩ [] with
         | some ds => if ds.isEmpty then "-" else ",".intercalate ds
